@@ -98,7 +98,7 @@ func floatOf2(d *D) int {
 
 func c02(c *Ctx) {
 	maxLen := c.N(4, 5)
-	c.Rule = fmt.Sprintf("exhaustive: arrays of 0..%d objects x every truth assignment of two boolean fields per element x %d filter shapes (AND/OR/default/chained/nested groups/nested filters/`$`-reading arguments) x 3 carriers of the array ([]any, []map[string]any, [N]any), plus single objects with the predicate true/false, arrays of primitives, and arrays of 1..3 objects whose two boolean fields are each true / false / null / absent under 8 shapes (alone, AND, chained, nested group, `?`-marked): null is not true; random: filter queries from the grammar on random documents. Kept elements are identified by unique ids and compared with the model and with an oracle computed from the shape's truth function. Non-trivial = the array is non-empty; distinct by (query, data).", maxLen, len(shapesC02))
+	c.Rule = fmt.Sprintf("exhaustive: arrays of 0..%d objects x every truth assignment of two boolean fields per element x %d filter shapes (AND/OR/default/chained/nested groups/nested filters/`$`-reading arguments) x 3 carriers of the array ([]any, []map[string]any, [N]any), plus single objects with the predicate true/false, arrays of primitives, and arrays of 1..3 objects whose two boolean fields are each true / false / null / absent under 8 shapes (alone, AND, chained, nested group, `?`-marked): null is not true; random: filter queries from the grammar on random documents. Predicate trees: random groups nested up to three deep (member-less groups included) whose leaves read the element or the root in every mixture, over arrays of 2..5 elements, oracle evaluated per element. Kept elements are identified by unique ids and compared with the model and with an oracle computed from the shape's truth function. Non-trivial = the array is non-empty; distinct by (query, data).", maxLen, len(shapesC02))
 	for n := 0; n <= maxLen; n++ {
 		for asg := 0; asg < 1<<(2*n); asg++ {
 			elems := []*D{}
